@@ -182,13 +182,20 @@ def param_clobber(model, R):
         # reaches the consumer
         if param == 'encoding':
             opens = [n for n in walk(f.body) if isinstance(n, ast.Call) and name_is(n.func, 'open')]
-            ok = len(opens) == 1 and any(k.arg == 'encoding' and name_is(k.value, param) for k in opens[0].keywords)
-            nl = len(opens) == 1 and any(k.arg == 'newline' and src(k.value) == 'cls.newline' for k in opens[0].keywords)
-            R.check(ok, 'PARAMS', f, opens[0] if opens else f.node, f'{f.name}: file opened with that encoding', 'open(filename, ..., encoding=encoding, ...)')
+            # builtin signature: open(file, mode='r', buffering=-1, encoding=None, errors=None, newline=None, closefd=True, opener=None)
+            OPEN = ('file', 'mode', 'buffering', 'encoding', 'errors', 'newline', 'closefd', 'opener')
+            oa = {}
+            if len(opens) == 1 and not any(isinstance(a_, ast.Starred) for a_ in opens[0].args):
+                oa = dict(zip(OPEN, opens[0].args))
+                oa.update({k.arg: k.value for k in opens[0].keywords if k.arg})
+            ok = len(opens) == 1 and 'encoding' in oa and name_is(oa['encoding'], param)
+            nl = len(opens) == 1 and 'newline' in oa and src(oa['newline']) == 'cls.newline'
+            R.check(ok, 'PARAMS', f, opens[0] if opens else f.node, f'{f.name}: file opened with that encoding', 'open(filename, ..., encoding=encoding, ...)',
+                    f'encoding={src(oa.get("encoding"))}' if opens else 'no open()', strict=True if len(opens) == 1 else None)
             R.decided(nl, 'PARAMS', f, opens[0] if opens else f.node, f'{f.name}: file opened with the class newline (same in both directions)',
                       'newline=cls.newline', src(opens[0]) if opens else 'no open()')
             if f.name == 'dump':
-                R.check(bool(opens) and len(opens[0].args) > 1 and const(opens[0].args[1]) == 'w', 'PARAMS', f, opens[0] if opens else f.node, 'dump opens for writing', "'w'")
+                R.check(bool(opens) and const(oa.get('mode')) == 'w', 'PARAMS', f, opens[0] if opens else f.node, 'dump opens for writing', "'w'")
         else:
             target = 'reader' if f.name == 'loadf' else 'write_csv_file'
             calls = [n for n in walk(f.body) if isinstance(n, ast.Call) and (chain(n.func) or [''])[-1] == target]
